@@ -315,6 +315,94 @@ func firstWalkScenario(first, name string, oa, ob op, two bool) *fw.Scenario {
 	}}
 }
 
+// emptiedScenario: the set of fids on a name is EMPTIED AND REFILLED while a
+// walk to that name is still in flight. fid 10 is the only fid on d/<name>.
+// In the window a walk 9->11 to the name and the clunk of fid 10 are sent
+// together; after the Rclunk a second walk 9->12 is made, and after its reply
+// ob runs through fid 12 - all while the first walk may be anywhere inside the
+// server (the GetAttr it makes on its new File is a read-class call on the
+// very path ob works on). Whatever the server does with the path's place in
+// its tree when the last fid goes, the conflict matrix applies.
+func emptiedScenario(first, name string, ob op, two bool) *fw.Scenario {
+	nm := fmt.Sprintf("emptied:%s(%s)||clunk-last-fid then walk+%s", first, name, ob.name)
+	if two {
+		nm += "|2conns"
+	}
+	return &fw.Scenario{Name: nm, Params: map[string]any{"first": first, "name": name, "B": ob.name, "two": two}, RaceOK: true, New: func() (func(), func(*vsched.Execution) ([]fw.Issue, string)) {
+		var fs *memfs.FS
+		base := 0
+		replies := map[uint16]refcodec.Msg{}
+		body := func() {
+			fs = mkfs()
+			memfs.RecordSites = true
+			replies = map[uint16]refcodec.Msg{}
+			srv := sess.NewServer(fs)
+			s1 := sess.Connect(fs, srv, "c1")
+			s1.Version(8192)
+			s1.Attach(1)
+			s2 := s1
+			if two {
+				s2 = sess.Connect(fs, srv, "c2")
+				s2.Version(8192)
+				s2.Attach(1)
+			}
+			bind(s1, 9, nD, -1)
+			if two {
+				bind(s2, 9, nD, -1)
+			}
+			s2.Peer.Must(rawpeer.Twalk(50, 9, 10, name))
+			w1 := rawpeer.Twalk(100, 9, 11, name)
+			if first == "walkgetattr" {
+				w1 = rawpeer.Twalkgetattr(100, 9, 11, name)
+			}
+			base = len(fs.Calls)
+			vsched.BeginExplore()
+			// wait for the reply with the given tag on s2, keeping others
+			await := func(tag uint16) {
+				for {
+					if _, ok := replies[tag]; ok {
+						return
+					}
+					r, err := s2.Peer.Recv()
+					if err != nil {
+						return
+					}
+					replies[r.Tag] = r
+				}
+			}
+			s1.Peer.Send(w1)
+			s2.Peer.Send(rawpeer.Tclunk(101, 10))
+			await(101)
+			s2.Peer.Send(rawpeer.Twalk(102, 9, 12, name))
+			await(102)
+			s2.Peer.Send(ob.mk(103, 12, 21, "B"))
+			await(103)
+			if s1 == s2 {
+				await(100)
+			} else if r, err := s1.Peer.Recv(); err == nil {
+				replies[r.Tag] = r
+			}
+			vsched.EndExplore()
+			s1.Hangup()
+			s1.WaitDone()
+			if s2 != s1 {
+				s2.Hangup()
+				s2.WaitDone()
+			}
+		}
+		check := func(e *vsched.Execution) ([]fw.Issue, string) {
+			is := oracle.ContractIssues(fs, base)
+			out := ""
+			for _, t := range []uint16{100, 101, 102, 103} {
+				r := replies[t]
+				out += fmt.Sprintf("%s/%d ", r.Name(), rawpeer.Errno(r))
+			}
+			return is, out + fmt.Sprintf("calls=%d", len(fs.Calls)-base)
+		}
+		return body, check
+	}}
+}
+
 // afterRenameScenario: fid 10 is walked to an entry, the entry is renamed
 // (lock-step, before the window), fid 11 is walked to it under its new name;
 // then a conflicting pair through the two fids is in flight together. Both
@@ -424,7 +512,7 @@ func run(ctx *fw.Ctx, rep *fw.Report) {
 	// Races are C16's matter (every scenario here is RaceOK): skip the
 	// race bookkeeping on the quietly recorded fields.
 	vrt.QuietRecording = false
-	rep.Rule = "scenario = ordered pair (A,B) of the 28 backend-reaching request types x path relation {same fid, two fids one path, parent/child, child/parent, siblings} x {one, two connections}, two requests in flight on the real server over memfs; all Mazurkiewicz traces (DPOR+sleep sets; fallback preemption bound 0,1); oracle: conflict matrix of the File interface comments over happens-before of backend enter/exit events (not physical overlap), plus Open count per handle; plus 28 fencing scenarios (an unlink / overwriting rename in flight together with a path-dependent request through a fid on the victim: no such backend call may start after the removing call returned), plus 12 scenarios with a fid from before and a fid from after a rename of the entry, plus 16 two-round scenarios (two FIRST walks to one fresh name in flight together, then a conflicting pair through the two new fids); distinct = distinct (replies, call count, unordered-pair flag) per scenario"
+	rep.Rule = "scenario = ordered pair (A,B) of the 28 backend-reaching request types x path relation {same fid, two fids one path, parent/child, child/parent, siblings} x {one, two connections}, two requests in flight on the real server over memfs; all Mazurkiewicz traces (DPOR+sleep sets; fallback preemption bound 0,1); oracle: conflict matrix of the File interface comments over happens-before of backend enter/exit events (not physical overlap), plus Open count per handle; plus 28 fencing scenarios (an unlink / overwriting rename in flight together with a path-dependent request through a fid on the victim: no such backend call may start after the removing call returned), plus 12 scenarios with a fid from before and a fid from after a rename of the entry, plus 16 two-round scenarios (two FIRST walks to one fresh name in flight together, then a conflicting pair through the two new fids), plus 12 scenarios in which the last fid on a name is clunked while a walk to that name is in flight and the name is then walked to again and written through; distinct = distinct (replies, call count, unordered-pair flag) per scenario"
 	rep.Assumptions = append(rep.Assumptions, "independence classes of DESIGN §2.2", "conflict matrix transcribed from p9/file.go comments; 'none' class (StatFS, Lock, Close) and xattr methods never flagged", "setup before the explored window follows the default schedule and settles")
 	type sc struct {
 		p      params
@@ -476,6 +564,27 @@ func run(ctx *fw.Ctx, rep *fw.Report) {
 					fw.RunScenario(ctx, rep, firstWalkScenario(first, tgt.name, opNamed(pr[0]), opNamed(pr[1]), two), fw.SchedOpts{Budget: budget, ForcePB: -1, Fallback: []int{0, 1}, Deviations: -1,
 						// one connection: the unbounded search does not finish in the quick budget (>6e4 executions); go straight to preemption bounds 0 and 1 there
 						SkipDPOR: ctx.Quick() && !two})
+				}
+			}
+		}
+	}
+	// a name emptied of fids and refilled while a walk to it is in flight
+	for _, first := range []string{"walk", "walkgetattr"} {
+		for _, tgt := range []struct {
+			name string
+			ops  []string
+		}{{"x", []string{"setattr"}}, {"sub", []string{"mkdir", "setattr"}}} {
+			for _, on := range tgt.ops {
+				for _, two := range []bool{false, true} {
+					k++
+					if !ctx.Mine(k) {
+						continue
+					}
+					if ctx.Quick() && first == "walkgetattr" && two {
+						rep.Count("scenarios_left_to_thorough", 1)
+						continue
+					}
+					fw.RunScenario(ctx, rep, emptiedScenario(first, tgt.name, opNamed(on), two), fw.SchedOpts{Budget: budget, ForcePB: -1, Fallback: []int{0, 1, 2}, Deviations: -1})
 				}
 			}
 		}
